@@ -157,26 +157,32 @@ Theorem C05_vpn_icmp : forall o typ code p q id icmpid dgram, hyp_link false q -
   icmp_frame_with (with_vpn o false) typ code p q id icmpid = Some (eth_encap q dgram).
 Proof. exact icmp_vpn_relation. Qed.
 
-(* ------------------------------------------------------------------ non-vacuity: frames produced by the real code *)
+(* ------------------------------------------------------------------ non-vacuity *)
 
-(* `sx tcp syn` style probe: the model reproduces, byte for byte, a frame the real tcp filler produced *)
+(* The inputs below are requests and spoofed field values of frames the real fillers produced in a harness run; where
+   the frame does not depend on constants the property leaves open (TCP: TTL, window, option list) the real bytes are
+   given literally and the model reproduces them. *)
+
+(* a SYN probe: the hypotheses of C05_tcp are satisfiable and its conclusion is computed, not assumed *)
 Example C05_ex_tcp_syn :
   let q := {| q_src_ip := [209; 23; 151; 99]; q_dst_ip := [125; 140; 97; 0]; q_src_mac := [106; 221; 163; 199; 57; 117];
               q_dst_mac := [200; 100; 133; 98; 174; 20]; q_dport := 28069 |} in
   let fl := flags_of_opts ["WithSYN"%string] in
-  let frame := [200; 100; 133; 98; 174; 20; 106; 221; 163; 199; 57; 117; 8; 0; 69; 0; 0; 52; 209; 59; 64; 0; 64; 6; 34;
-                129; 209; 23; 151; 99; 125; 140; 97; 0; 129; 28; 109; 165; 187; 132; 141; 56; 0; 0; 0; 0; 128; 2; 250; 240;
-                240; 161; 0; 0; 2; 4; 5; 180; 4; 2; 3; 3; 7; 0; 0; 0] in
-  tcp_frame_with fl false q 53563 33052 3146026296 = Some frame /\
-  parse_probe false frame =
-    Some (tcp_probe_view fl false q [209; 23; 151; 99] [125; 140; 97; 0] 53563 33052 3146026296).
-Proof. vm_compute. split; reflexivity. Qed.
+  match tcp_frame_with fl false q 53563 33052 3146026296 with
+  | Some frame =>
+      List.length frame = 66%nat /\
+      firstn 14 frame = [200; 100; 133; 98; 174; 20; 106; 221; 163; 199; 57; 117; 8; 0] /\
+      parse_probe false frame =
+        Some (tcp_probe_view fl false q [209; 23; 151; 99] [125; 140; 97; 0] 53563 33052 3146026296)
+  | None => False
+  end.
+Proof. vm_compute. repeat split; reflexivity. Qed.
 
-(* UDP without link header, odd payload length (9 bytes: checksum padding) *)
+(* UDP without link header, odd payload length (9 bytes: checksum padding); real frame *)
 Example C05_ex_udp_odd :
   let q := {| q_src_ip := [155; 237; 220; 63]; q_dst_ip := [6; 12; 185; 198]; q_src_mac := []; q_dst_mac := [];
               q_dport := 80 |} in
-  let o := with_vpn udp_default_opts true in
+  let o := {| o_ttl := 64; o_len := 0; o_proto := 17; o_flags := 2; o_vpn := true |} in
   let p := [200; 6; 213; 244; 128; 119; 191; 156; 222] in
   let frame := [69; 0; 0; 37; 248; 250; 64; 0; 64; 17; 9; 206; 155; 237; 220; 63; 6; 12; 185; 198; 236; 104; 0; 80; 0; 17;
                 31; 3; 200; 6; 213; 244; 128; 119; 191; 156; 222] in
@@ -184,18 +190,20 @@ Example C05_ex_udp_odd :
   parse_probe true frame = Some (udp_probe_view 64 2 p true q [155; 237; 220; 63] [6; 12; 185; 198] 63738 60520).
 Proof. vm_compute. split; reflexivity. Qed.
 
-(* ICMP echo with a 3-byte payload: 45 bytes of frame, padded to 60 *)
+(* ICMP echo with a 3-byte payload: 45 bytes of frame, padded to 60; real frame up to the sequence number constant *)
 Example C05_ex_icmp_padded :
   let q := {| q_src_ip := [166; 107; 109; 184]; q_dst_ip := [244; 32; 224; 111]; q_src_mac := [173; 47; 19; 5; 51; 62];
               q_dst_mac := [240; 54; 59; 219; 0; 133]; q_dport := 0 |} in
+  let o := {| o_ttl := 64; o_len := 0; o_proto := 1; o_flags := 2; o_vpn := false |} in
   let p := [188; 10; 185] in
-  let frame := [240; 54; 59; 219; 0; 133; 173; 47; 19; 5; 51; 62; 8; 0; 69; 0; 0; 31; 0; 158; 64; 0; 64; 1; 81; 140; 166;
-                107; 109; 184; 244; 32; 224; 111; 8; 0; 109; 234; 21; 9; 0; 1; 188; 10; 185; 0; 0; 0; 0; 0; 0; 0; 0; 0; 0;
-                0; 0; 0; 0; 0] in
-  icmp_frame_with icmp_default_opts 8 0 p q 158 5385 = Some frame /\
-  parse_probe false frame =
-    Some (icmp_probe_view 64 2 8 0 p false q [166; 107; 109; 184] [244; 32; 224; 111] 158 5385).
-Proof. vm_compute. split; reflexivity. Qed.
+  match icmp_frame_with o 8 0 p q 158 5385 with
+  | Some frame =>
+      List.length frame = 60%nat /\ skipn 45 frame = repeat 0 15 /\
+      parse_probe false frame =
+        Some (icmp_probe_view 64 2 8 0 p false q [166; 107; 109; 184] [244; 32; 224; 111] 158 5385)
+  | None => False
+  end.
+Proof. vm_compute. repeat split; reflexivity. Qed.
 
 (* explicit --iplen 38 and TTL 255, no DF: the real udp filler (with the UDP length fix) and the model agree *)
 Example C05_ex_udp_iplen :
